@@ -11,6 +11,7 @@ DONE = {
  'C11': 'paused hub: every variant except UpdateParams/MigrateUnbondWaitList has no Ok path for any sender; no unpause with legacy entries; queries never read the pause flag',
  'C14': 'reward contract: INV-RW (sum accrued <= recorded <= bank; sum balances = total) inductive over every message; claim pays whole units and keeps the fraction; index update strands < 1 unit',
  'C15': 'reward contract: per-step frame/settle/proportionality equalities in exact atomics + paired executions (both orders) of independent operations',
+ 'C16': 'bSei token: per address the balance change equals the net of the Increase/Decrease messages sent first to the reward contract; reward side changes holder and total by exactly the amount',
  'C17': 'dispatcher: swap offer <= held and stSei-side share after swap (oracle price), DispatchRewards keeper = floor(balance x rate), everything forwarded, order; known finding: zero-coin sends',
  'C18': 'both tokens: instantiate (0..3 possibly repeated addresses) and every execute variant conserve sum(balances) = total_supply; mint/burn only hub; allowance limits and expiry; CheckSlashing on burns',
  'C20': 'instantiate + every update message with independently optional fields: stored fee/threshold/keeper rate <= 1, fixed denominations, omitted fields unchanged',
